@@ -165,6 +165,12 @@ def rule_dependence(ctx: Ctx) -> None:
 
 def rule_charged_recorded(ctx: Ctx) -> None:
     c01.rule_same_value(ctx, rule="C09.3")
+    # 'rounded up to the quote precision': the precision _round_fees applies is the pair's (shared with C08.5)
+    ctx.rule_map = {"C08.5": "C09.3"}
+    try:
+        c08.rule_precision_sources(ctx)
+    finally:
+        ctx.rule_map = {}
     c08.rule_quantisation(ctx) if False else None
     rf = ctx.func(f"{OM}._round_fees")
     calls = [c for c in A.func_calls(rf) if (A.call_name(c) or "").endswith("round_decimal")]
